@@ -155,15 +155,16 @@ def _parse_phoenix_line(line, str_delim='""'):
 
     #If there is a string literal, pull that out
     if val_str.startswith(str_delim):
-        end_quote = val_str[delim_len:].find(str_delim) + delim_len
+        end_quote = val_str[delim_len:].find(str_delim)
         if end_quote == -1:
             raise PhoenixParseError(line)
-        elif not end_quote == len(val_str) - delim_len:
+        end_quote += delim_len
+        if not end_quote == len(val_str) - delim_len:
             #Make sure remainder is just comment
             if not val_str[end_quote+delim_len:].strip().startswith('#'):
                 raise PhoenixParseError(line)
 
-        return (key, val_str[2:end_quote])
+        return (key, val_str[delim_len:end_quote])
 
     else: #Otherwise try to convert to an int or float
         val = None
